@@ -18,35 +18,43 @@ struct AxisFile {
 };
 AxisFile AF;
 
-nix::Dimension build(const ConcreteAxis &ax) {
+// the typed handle objects themselves are kept (a front-end object may remember things; converting it to a generic Dimension
+// and back would create a new object)
+struct Ax { nix::Dimension d; nix::SampledDimension sa; nix::RangeDimension ra; nix::SetDimension se; nix::DataFrameDimension fr; };
+Ax typed(const nix::SampledDimension &x) { Ax a; a.sa = x; a.d = x; return a; }
+Ax typed(const nix::RangeDimension &x) { Ax a; a.ra = x; a.d = x; return a; }
+Ax typed(const nix::SetDimension &x) { Ax a; a.se = x; a.d = x; return a; }
+Ax typed(const nix::DataFrameDimension &x) { Ax a; a.fr = x; a.d = x; return a; }
+
+Ax build(const ConcreteAxis &ax) {
     AF.a.deleteDimensions();
     if (ax.kind == "sampled") {
         nix::SampledDimension d = AF.a.appendSampledDimension(ax.interval);
         d.offset(ax.offset);
-        return d;
+        return typed(d);
     }
     if (ax.kind == "range") {
         if (ax.ticks.empty()) {
             // a range dimension without ticks cannot be appended through the API; create with one tick and clear
             nix::RangeDimension d = AF.a.appendRangeDimension(std::vector<double>{0.0});
             d.ticks(std::vector<double>{});
-            return d;
+            return typed(d);
         }
-        return AF.a.appendRangeDimension(ax.ticks);
+        return typed(AF.a.appendRangeDimension(ax.ticks));
     }
     if (ax.kind == "setL" || ax.kind == "set0") {
         std::vector<std::string> l;
         if (ax.kind == "setL") for (long i = 0; i < ax.count(); i++) l.push_back("l" + std::to_string(i));
-        return AF.a.appendSetDimension(l);
+        return typed(AF.a.appendSetDimension(l));
     }
     AF.df.rows((nix::ndsize_t) ax.count());
-    return AF.a.appendDataFrameDimension(AF.df, 0u);
+    return typed(AF.a.appendDataFrameDimension(AF.df, 0u));
 }
 
 // The same axis reached differently: the descriptor is first created with ANOTHER definition, a handle to it is kept and used
 // for one conversion, then the definition is changed to `ax` through a second handle; the queries go through the KEPT handle.
 // A conversion depends on the axis as it is at the time of the call, not on what a handle saw earlier.
-nix::Dimension buildKept(const ConcreteAxis &ax) {
+Ax buildKept(const ConcreteAxis &ax) {
     AF.a.deleteDimensions();
     auto warm = [](std::function<void()> f) { try { f(); } catch (...) {} };
     if (ax.kind == "sampled") {
@@ -55,14 +63,14 @@ nix::Dimension buildKept(const ConcreteAxis &ax) {
         warm([&] { (void) d.indexOf(1.0, nix::PositionMatch::GreaterOrEqual); (void) d.positionAt(2); });
         nix::SampledDimension e = AF.a.getDimension(1).asSampledDimension();
         e.samplingInterval(ax.interval); e.offset(ax.offset);
-        return d;
+        return typed(d);
     }
     if (ax.kind == "range") {
         nix::RangeDimension d = AF.a.appendRangeDimension(std::vector<double>{-1000.0, 1000.0, 5000.0});
         warm([&] { (void) d.indexOf(0.0, nix::PositionMatch::GreaterOrEqual); (void) d.tickAt(1); (void) d.positionInRange(0.0); });
         nix::RangeDimension e = AF.a.getDimension(1).asRangeDimension();
         e.ticks(ax.ticks);
-        return d;
+        return typed(d);
     }
     if (ax.kind == "setL" || ax.kind == "set0") {
         std::vector<std::string> other, l;
@@ -73,13 +81,13 @@ nix::Dimension buildKept(const ConcreteAxis &ax) {
         if (ax.kind == "setL") for (long i = 0; i < ax.count(); i++) l.push_back("l" + std::to_string(i));
         nix::SetDimension e = AF.a.getDimension(1).asSetDimension();
         e.labels(l);
-        return d;
+        return typed(d);
     }
     AF.df.rows((nix::ndsize_t) ax.count() + 2);
     nix::DataFrameDimension d = AF.a.appendDataFrameDimension(AF.df, 0u);
     warm([&] { (void) d.indexOf(0.0, nix::PositionMatch::GreaterOrEqual); });
     AF.df.rows((nix::ndsize_t) ax.count());
-    return d;
+    return typed(d);
 }
 
 json idxJson(const boost::optional<nix::ndsize_t> &o) {
@@ -91,21 +99,21 @@ json pairJson(const boost::optional<std::pair<nix::ndsize_t, nix::ndsize_t>> &o)
     return json{{"some", true}, {"lo", (long long) o->first}, {"hi", (long long) o->second}};
 }
 
-boost::optional<nix::ndsize_t> indexOfVia(int via, const nix::Dimension &d, const std::string &k, double p, nix::PositionMatch m) {
+boost::optional<nix::ndsize_t> indexOfVia(int via, const Ax &d, const std::string &k, double p, nix::PositionMatch m) {
     // via 0: member indexOf ; via 1: util::positionToIndex
-    if (k == "sampled") { nix::SampledDimension s = d.asSampledDimension(); return via == 0 ? s.indexOf(p, m) : nix::util::positionToIndex(p, "none", m, s); }
-    if (k == "range") { nix::RangeDimension s = d.asRangeDimension(); return via == 0 ? s.indexOf(p, m) : nix::util::positionToIndex(p, "none", m, s); }
-    if (k == "frame") { nix::DataFrameDimension s = d.asDataFrameDimension(); return via == 0 ? s.indexOf(p, m) : nix::util::positionToIndex(p, m, s); }
-    nix::SetDimension s = d.asSetDimension(); return via == 0 ? s.indexOf(p, m) : nix::util::positionToIndex(p, m, s);
+    if (k == "sampled") { const nix::SampledDimension &s = d.sa; return via == 0 ? s.indexOf(p, m) : nix::util::positionToIndex(p, "none", m, s); }
+    if (k == "range") { const nix::RangeDimension &s = d.ra; return via == 0 ? s.indexOf(p, m) : nix::util::positionToIndex(p, "none", m, s); }
+    if (k == "frame") { const nix::DataFrameDimension &s = d.fr; return via == 0 ? s.indexOf(p, m) : nix::util::positionToIndex(p, m, s); }
+    const nix::SetDimension &s = d.se; return via == 0 ? s.indexOf(p, m) : nix::util::positionToIndex(p, m, s);
 }
 
-boost::optional<std::pair<nix::ndsize_t, nix::ndsize_t>> rangeOfVia(int via, const nix::Dimension &d, const std::string &k,
+boost::optional<std::pair<nix::ndsize_t, nix::ndsize_t>> rangeOfVia(int via, const Ax &d, const std::string &k,
                                                                      double s, double e, nix::RangeMatch m) {
     std::vector<double> sv{s}, ev{e};
-    if (k == "sampled") { auto x = d.asSampledDimension(); return via == 0 ? x.indexOf(s, e, m) : via == 1 ? x.indexOf(sv, ev, m)[0] : nix::util::positionToIndex(sv, ev, std::vector<std::string>{"none"}, m, x)[0]; }
-    if (k == "range") { auto x = d.asRangeDimension(); return via == 0 ? x.indexOf(s, e, {}, m) : via == 1 ? x.indexOf(sv, ev, m)[0] : nix::util::positionToIndex(sv, ev, std::vector<std::string>{"none"}, m, x)[0]; }
-    if (k == "frame") { auto x = d.asDataFrameDimension(); return via == 0 ? x.indexOf(s, e, m) : via == 1 ? x.indexOf(sv, ev, m)[0] : nix::util::positionToIndex(sv, ev, m, x)[0]; }
-    auto x = d.asSetDimension(); return via == 0 ? x.indexOf(s, e, m) : via == 1 ? x.indexOf(sv, ev, m)[0] : nix::util::positionToIndex(sv, ev, m, x)[0];
+    if (k == "sampled") { const auto &x = d.sa; return via == 0 ? x.indexOf(s, e, m) : via == 1 ? x.indexOf(sv, ev, m)[0] : nix::util::positionToIndex(sv, ev, std::vector<std::string>{"none"}, m, x)[0]; }
+    if (k == "range") { const auto &x = d.ra; return via == 0 ? x.indexOf(s, e, {}, m) : via == 1 ? x.indexOf(sv, ev, m)[0] : nix::util::positionToIndex(sv, ev, std::vector<std::string>{"none"}, m, x)[0]; }
+    if (k == "frame") { const auto &x = d.fr; return via == 0 ? x.indexOf(s, e, m) : via == 1 ? x.indexOf(sv, ev, m)[0] : nix::util::positionToIndex(sv, ev, m, x)[0]; }
+    const auto &x = d.se; return via == 0 ? x.indexOf(s, e, m) : via == 1 ? x.indexOf(sv, ev, m)[0] : nix::util::positionToIndex(sv, ev, m, x)[0];
 }
 
 json handle(Ctx &c, const json &rec) {
@@ -129,12 +137,12 @@ json handle(Ctx &c, const json &rec) {
     for (const ConcreteAxis &ax : concreteAxes(k, n, lo, c.seed, all, sweep)) {
         static unsigned long turn = 0;
         bool kept = (++turn % 2 == 0) && !(ax.kind == "range" && ax.ticks.empty());
-        nix::Dimension d = kept ? buildKept(ax) : build(ax);
+        Ax d = kept ? buildKept(ax) : build(ax);
         // the axis definition itself: the library's coordinates must be the harness's
         for (long i = 0; i < n; i++) {
             double lib;
-            if (k == "sampled") lib = d.asSampledDimension().positionAt((nix::ndsize_t) (ax.base + i));
-            else if (k == "range") lib = d.asRangeDimension().tickAt((nix::ndsize_t) (ax.base + i));
+            if (k == "sampled") lib = d.sa.positionAt((nix::ndsize_t) (ax.base + i));
+            else if (k == "range") lib = d.ra.tickAt((nix::ndsize_t) (ax.base + i));
             else continue;
             evals++;
             if (lib != ax.x(i)) note(ax, "coordinate", "on", hexd(ax.x(i)), ax.x(i), lib);
@@ -152,7 +160,7 @@ json handle(Ctx &c, const json &rec) {
                 }
                 if (k == "range") {
                     std::string want = rec["inrange"];
-                    nix::PositionInRange pr = d.asRangeDimension().positionInRange(pv.p);
+                    nix::PositionInRange pr = d.ra.positionInRange(pv.p);
                     std::string got = pr == nix::PositionInRange::Less ? "Less" : pr == nix::PositionInRange::Greater ? "Greater"
                                     : pr == nix::PositionInRange::InRange ? "InRange" : "NoRange";
                     evals++;
